@@ -6,7 +6,8 @@
    The model is a labelled transition system (lib/Lts.v).  A state has
      - the output side: the output lock (holder), the OutputStreamClosed bit,
        the encoder buffer (items encoded but not flushed) and the wire (items
-       written to the connection);
+       written to the connection), the state mutex (holder), whether the peer
+       is reading, whether the closing tag is still owed;
      - the input side: the InputStreamClosed bit, the input lock, the peer's
        pending events, the close deadline (armed / read deadline expired /
        input context done and its error) and whether the transport supports
@@ -22,7 +23,15 @@
    source (verifhook.Yield) appear as OYield operations without effect, so the
    harness can force the same label sequence on the real code.
 
-   Connection writes are assumed to succeed.  Only definitions here. *)
+   The state mutex (s.stateMutex): every critical section of the repaired code
+   is a few assignments, so each is one operation, enabled when the mutex is
+   free ([gate], [reads_state]); closeSession is the test-and-set of the bit
+   under the mutex (OMark — from then on the closing tag is owed: o_pend) and,
+   after the mutex is released, the write of the tag (OWriteTag).  OSLock /
+   OSUnlock hold the mutex across steps: only the pinned design of Close did
+   that (StateLock.v).  Connection writes never fail; they complete only while
+   the peer reads (o_rdy, switched by the environment actor KStall).
+   Only definitions here. *)
 From XV Require Import lib.Bytes lib.Lts gen.SessClose.
 
 (* ---- vocabulary ---- *)
